@@ -7,7 +7,7 @@ from vlib import qN, qbytes, qres, qbool, run_impl
 from props import toycipher
 from props import bf3common as B
 
-GEN_DEPS = ("Consts.v", "gen_consts")
+GEN_DEPS = ("Consts.v", "gen_consts", "Pad.v", "gen_pad")
 MODEL_TARGETS = ["Model/Bf3.vo", "Model/Bf3Eq.vo", "Model/Cbc.vo", "Model/Aes.vo"]
 IMPORTS = B.IMPORTS
 
